@@ -415,28 +415,31 @@ def replay(ov, prop, item, extra, timeout=900, native=True):
             rel_env[f"CARGO_PROFILE_{prof}_DEBUG_ASSERTIONS"] = "false"
             rel_env[f"CARGO_PROFILE_{prof}_OVERFLOW_CHECKS"] = "false"
         for profile in ([], ["--release"]):
-            cmd = ["cargo", "kani", "playback", "-Z", "concrete-playback", "--", "verif_playback", "--test-threads=1"]
+            cmd = ["cargo", "kani", "playback", "-Z", "concrete-playback", "--", "verif_playback", "--test-threads=1", "--nocapture"]
             try:
                 _rc, out = run_group(cmd, ov, (rel_env if profile else ENV), timeout)
             except subprocess.TimeoutExpired:
                 notes.append(f"{'release' if profile else 'dev'}: timeout")
                 continue
             m = re.search(r"test result: \w+\. (\d+) passed; (\d+) failed", out)
-            hit = needle in out and re.search(r"panicked at", out) is not None
             other = None
-            if not hit and lab.startswith("VP[") and re.search(r"panicked at", out):
-                # natively `vp!` is an assert, so the test stops at the FIRST failing obligation, which may be an
-                # earlier one than the obligation this counterexample was generated for: the concrete input still
-                # violates the property on the real code
-                mo = re.search(r"(VP\[%s\]: [^\n]*)" % re.escape(item["property"]), out)
-                if mo:
-                    hit, other = True, mo.group(1)
+            if lab.startswith("VP["):
+                # natively `vp!` prints "VIOLATED VP[..]: .." and goes on
+                hit = ("VIOLATED " + needle) in out
+                if not hit:
+                    # the concrete input may violate another obligation of the same property first and then take a
+                    # different path (e.g. panic): it still violates the property on the real code
+                    mo = re.search(r"VIOLATED (VP\[%s\]: [^\n]*)" % re.escape(item["property"]), out)
+                    if mo:
+                        hit, other = True, mo.group(1)
+            else:
+                hit = needle in out and re.search(r"panicked at", out) is not None
             if not m:
                 err = re.findall(r"^error[^\n]*", out, re.M)
                 notes.append(f"{'release' if profile else 'dev'}: no result ({'; '.join(err[:2])})")
             else:
                 notes.append(f"{'release' if profile else 'dev'}: {m.group(0)}; obligation {'reproduced' if hit else 'not reproduced'}"
-                             + (f" (the native run stops at an earlier obligation of the same property: {other[:120]})" if other else ""))
+                             + (f" (the native run violates another obligation of the same property: {other[:120]})" if other else ""))
             if hit:
                 reproduced = True
     finally:
